@@ -61,6 +61,10 @@ template <typename Number> void congruence<Number>::normalize(void) {
   // Set to standard form: 0 <= b < a for a != 0
   if (m_a != 0) {
     m_b = m_b % m_a;
+    // operator% truncates towards zero
+    if (m_b < 0) {
+      m_b = m_b + abs(m_a);
+    }
   }
 }
 
@@ -179,14 +183,14 @@ bool congruence<Number>::operator<=(const congruence<Number> &o) const {
   } else if (m_a == 0 && o.m_a == 0) {
     return (m_b == o.m_b);
   } else if (m_a == 0) {
-    if ((m_b % o.m_a) == (o.m_b % o.m_a)) {
+    if ((m_b - o.m_b) % o.m_a == 0) {
       return true;
     }
   } else if (o.m_a == 0) {
     // an infinite set of integers is never included in a singleton
     return false;
   }
-  return (m_a % o.m_a == 0) && (m_b % o.m_a == o.m_b % o.m_a);
+  return (m_a % o.m_a == 0) && ((m_b - o.m_b) % o.m_a == 0);
 }
 
 template <typename Number>
